@@ -149,6 +149,7 @@ TECHNIQUE["C09"] = "def-use, read-dependence, guarded construction (world-set da
 TECHNIQUE["C16"] = "provenance of the decode window's bound over pre-coroutine-transform MIR of the async receive body"
 
 _ADD = {
+    "C16": " No decoder keeps state between calls in a static or thread-local buffer (C11-I4).",
     "C01": " The seek dominates the write and the write dominates the record on every path (no conditional seek / skipped write); the held-range list is never reset or replaced (C09-G8). A staging file is opened only when none is held (H); the file status Retained is produced only after io::copy(staged file -> opened destination) returned (P). With the CRC option on, every kind of PDU - file data included - is accepted only behind the CRC comparison (C15-M), and transaction ids come from a wrapping read-and-increment so that two live transactions are not cross-wired under one id (C11-I3).",
     "C04": " The held-range list is only changed by recording a written segment (C09-G8). The report given to the sending user with a received Finished PDU is generated after the transaction took over that PDU's condition (S2). Outside the cancel routine the Finished PDU is built only right after finalisation, so a late PDU cannot rebuild the reported outcome (C13-Q3). Per entry point of a transaction, the kinds of error its own code can construct do not grow (E): an error from a handler ends the task of a still-addressed transaction, after which the daemon starts a fresh one under the same id.",
     "C05": " Items are self-delimiting (L2): a decoder that consults the end of its input (short read, read_to_end) is run only in tail position of its reader. No decoder passes a received name or text through a lossy or normalising conversion (C06-P4). The nested item types an encoder delegates to are exactly those its decoder delegates to (L6); no encoder clamps, saturates, sorts or drops part of a field (L7); a field decoded from bits that the encoder fills from something else is reported (L1). EndOfFile::decode reads the fault-location TLV exactly on the conditions other than 'No error' (L8).",
@@ -164,8 +165,8 @@ _ADD = {
     "C15": " No decoder normalises a received name or text, so the re-encoding the CRC is computed over is the received encoding (C06-P4). The re-encoding is shortened exactly once before the CRC is computed and PDU::encode computes the CRC over everything written before it (M / W). No encoder alters the value it writes (C05-L7), so the re-encoding of a corrupted PDU cannot reproduce the received octets. The CRC is verified on the re-encoding of what was decoded, so a corrupted PDU is accepted exactly when encode(decode(x)) gives back the received octets for a corrupted x: the codec-agreement rules C05-L1 (bit layout, decoded-only fields) and C05-L6 (nesting) are therefore also run for C15. The accepting comparison is made on the received and the computed CRC themselves, not on a transformed value (M).",
     "C17": " In send_naks the NAK count is reset when data arrived since the previous NAK and merely restarted otherwise (H8); Timer::new is called with the like-named configuration fields, builds each counter from the like-named parameters, each restart_/reset_ helper drives the like-named counter, Counter::restart runs update() before un-pausing (T2); Counter::start is used only on freshly created counters (C19-C); plus C10-K4/K6. An expiry of one timer never hides the expiry of another: each poll of a timer is reachable from every outcome of the preceding tests on other timers (W2). The NAK-progress test of H8 reads the receiver's progress counter, which grows exactly by the newly held bytes (C20-P2). The receiver's handler returns true exactly on the Ignore arm (H9) and every caller branches on the verdict (H10); the sender's inactivity reset on reception is conditional on the phase only (H7).",
     "C18": " In unacknowledged mode prepare_finished is reached only on the true edge of 'metadata held and closure requested' with default false (U5). The sender cannot stall before its EOF: has_pdu_to_send is always true in the SendMetadata / SendData phases (C07-S9).",
-    "C19": " Counter::start (un-pause keeping the old start time) is only applied to a counter created in the same function, never to the limit timers (C). Counter::restart accounts for elapsed time before un-pausing, so suspended time is not counted (C17-T2). No decision in the PDU-processing path reads the suspension state except to gate timer arming (R); resume re-arms on every path of the phase each timer the phase relies on, and the receiver's NAK timer / list whenever NAKs apply (D).",
-    "C20": " The overlap counts of the coalescing helper reach the new-bytes result and the helper is applied at the extended index (C09-G1/G6). Every merge() on the receiver's range list is followed on every normal path by the counter update (P4); a first-pass segment is sent with the progress update on (P5). No transaction field other than the counter holds a copy of the progress figure (P6).",
+    "C19": " Counter::start (un-pause keeping the old start time) is only applied to a counter created in the same function, never to the limit timers (C). Counter::restart accounts for elapsed time before un-pausing, so suspended time is not counted (C17-T2). No decision in the PDU-processing path reads the suspension state except to gate timer arming (R); resume re-arms on every path of the phase each timer the phase relies on, and the receiver's NAK timer / list whenever NAKs apply (D). Commands - Suspend and Resume among them - reach a busy transaction: they are handed over with the waiting send (C11-I7).",
+    "C20": " The overlap counts of the coalescing helper reach the new-bytes result and the helper is applied at the extended index (C09-G1/G6). Every merge() on the receiver's range list is followed on every normal path by the counter update (P4); a first-pass segment is sent with the progress update on (P5). No transaction field other than the counter holds a copy of the progress figure (P6). The list of held ranges is never reset while the counter is kept (C09-G8).",
 }
 for _k, _v in _ADD.items():
     if _v.strip() not in PROPS[_k]["decided"]:
